@@ -59,8 +59,16 @@ func NewValidatorSet(vals []*Validator) *ValidatorSet {
 	return vs
 }
 
-// TODO: mind the overflow when times and votingPower shares too large.
+// IncrementAccum advances the proposer rotation by times rounds, one round at a time,
+// so that skipping rounds selects the same proposer as going through each of them.
 func (valSet *ValidatorSet) IncrementAccum(times int64) {
+	for i := int64(0); i < times; i++ {
+		valSet.incrementAccum(1)
+	}
+}
+
+// TODO: mind the overflow when times and votingPower shares too large.
+func (valSet *ValidatorSet) incrementAccum(times int64) {
 	// Add VotingPower * times to each validator and order into heap.
 	validatorsHeap := gcmn.NewHeap()
 	for _, val := range valSet.Validators {
